@@ -110,6 +110,7 @@ func ruleENG1(c *Ctx) {
 		c.AnchorLost("engine entry points / RuleEntry.Evaluate / Execute")
 		return
 	}
+	eng1NoRefusalByState(c, a)
 	rs := c.derivedRunState(a)
 	var keys []string
 	for k := range rs {
@@ -878,4 +879,110 @@ func dominatedByCancelledEdge(b *ssa.BasicBlock, ctx ssa.Value) bool {
 		}
 	}
 	return false
+}
+
+
+// eng1NoRefusalByState: a fresh instance is never refused, so a reused one must not be either. Before the first
+// evaluation an entry point may turn a call down only for its arguments (nil knowledge base or data context, a context
+// that is over) or for a failure of the data context; a refusal whose condition reads the knowledge base (a claim flag
+// that an earlier call failed to give back on one of its ways out, a `dirty` mark) makes the outcome of a call depend on
+// the history of the instance (round-5 seed C08/b).
+func eng1NoRefusalByState(c *Ctx, a *engAnchors) {
+	p := c.P
+	for _, e := range []struct {
+		name string
+		fn   *ssa.Function
+	}{{"ExecuteWithContext", a.exec}, {"FetchMatchingRules", a.fetch}} {
+		fn := e.fn
+		var kb *ssa.Parameter
+		for _, prm := range fn.Params {
+			if isNamed(prm.Type(), fullPkg("ast"), "KnowledgeBase") {
+				kb = prm
+			}
+		}
+		var firstEval ssa.Instruction
+		for _, ci := range findCalls(fn, matchStatic(a.reEval)) {
+			firstEval = ci.(ssa.Instruction)
+			break
+		}
+		if kb == nil || firstEval == nil {
+			c.AnchorLost(e.name + " / knowledge base parameter, first evaluation")
+			continue
+		}
+		loops := naturalLoops(fn)
+		bad := ""
+		nGuards := 0
+		for _, b := range fn.Blocks {
+			iff, ok := b.Instrs[len(b.Instrs)-1].(*ssa.If)
+			if !ok || !b.Dominates(firstEval.Block()) || innermostLoopOf(loops, b) != nil {
+				continue
+			}
+			refuses := false
+			for si := range b.Succs {
+				if onlyErrorReturns(b.Succs[si], loops) {
+					refuses = true
+				}
+			}
+			if !refuses {
+				continue
+			}
+			nGuards++
+			readsKB := false
+			seen := map[ssa.Value]bool{}
+			var walk func(v ssa.Value, depth int)
+			walk = func(v ssa.Value, depth int) {
+				if v == nil || seen[v] || depth > 12 || readsKB {
+					return
+				}
+				seen[v] = true
+				switch x := v.(type) {
+				case *ssa.BinOp:
+					// the nil test of the parameter itself is an argument check
+					if (isNilConst(x.X) && unspill(x.Y) == ssa.Value(kb)) || (isNilConst(x.Y) && unspill(x.X) == ssa.Value(kb)) {
+						return
+					}
+					walk(x.X, depth+1)
+					walk(x.Y, depth+1)
+				case *ssa.UnOp:
+					if f, base := fieldLoad(v); f != nil && derivesFromValue(base, kb) {
+						readsKB = true
+						return
+					}
+					walk(x.X, depth+1)
+				case *ssa.Phi:
+					for _, e := range x.Edges {
+						walk(e, depth+1)
+					}
+				case *ssa.Extract:
+					walk(x.Tuple, depth+1)
+				case *ssa.Call:
+					for _, arg := range x.Call.Args {
+						if derivesFromValue(arg, kb) {
+							readsKB = true
+						}
+					}
+					if x.Call.IsInvoke() && derivesFromValue(x.Call.Value, kb) {
+						readsKB = true
+					}
+				case *ssa.Field, *ssa.FieldAddr:
+					if f, base := fieldLoad(v); f != nil && derivesFromValue(base, kb) {
+						readsKB = true
+					}
+				case *ssa.ChangeType:
+					walk(x.X, depth+1)
+				case *ssa.Convert:
+					walk(x.X, depth+1)
+				case *ssa.MakeInterface:
+					walk(x.X, depth+1)
+				case *ssa.TypeAssert:
+					walk(x.X, depth+1)
+				}
+			}
+			walk(iff.Cond, 0)
+			if readsKB {
+				bad = "the refusal at " + p.InstrPos(iff) + " depends on something read from the knowledge base"
+			}
+		}
+		c.Check(bad == "", e.name+" / a call is refused only for its arguments or a failing data context, never for the state of the instance", p.Pos(fn.Pos()), fmt.Sprintf("%d refusals before the first evaluation, none reads the knowledge base", nGuards), bad+": whether a call on a reused instance runs at all then depends on how an earlier call ended (a claim that one way out forgot to give back refuses every later call), which a fresh instance never shows")
+	}
 }
